@@ -125,6 +125,11 @@ func (g *Gen) call(st *State, in ssa.CallInstruction) Val {
 		names := g.calleeNames(nil, sig, cb)
 		return g.applyContract(st, cb, cb.Key, names, argVals(), sig, resTy, pos, false)
 	}
+	if nt, ok := cc.Value.Type().(*types.Named); ok && nt.Obj().Pkg() != nil && nt.Obj().Pkg().Path() == "context" && nt.Obj().Name() == "CancelFunc" {
+		// cancelling a context touches only the context's own (external) state
+		g.Assumed["trusted: calling a context.CancelFunc changes nothing the verified code reads"] = true
+		return g.declare(st, "cancel", resTy)
+	}
 	g.Abstracted["call through function value without callback contract at "+g.pos(pos)+" (heap havocked)"] = true
 	g.havocAll(st, "dynamic call")
 	return g.declare(st, "dyncall", resTy)
@@ -493,6 +498,21 @@ func (g *Gen) applyContractX(st *State, c *Contract, key string, names []string,
 		}
 		res = g.declare(st, "ret:"+short, resTy)
 	}
+	// remembered for known-finding witnesses: callres_<Func>_<k> is the result of the
+	// k-th call to Func in this function (its first component for several results)
+	if !g.quiet {
+		if g.callRes == nil {
+			g.callRes = map[string]Val{}
+			g.callResOrd = map[string]int{}
+		}
+		base := short
+		if i := strings.LastIndexAny(base, "./"); i >= 0 {
+			base = base[i+1:]
+		}
+		k := g.callResOrd[base]
+		g.callResOrd[base] = k + 1
+		g.callRes[fmt.Sprintf("callres_%s_%d", base, k)] = res
+	}
 	rn := resultNamesOf(sig, c)
 	if res.K == VTuple {
 		for i, n := range rn {
@@ -538,6 +558,8 @@ func (g *Gen) applyContractX(st *State, c *Contract, key string, names []string,
 			// evaluated like an ensures of the callee, in the caller's package scope
 			sc3 := g.specCtxVars(st, pre, vars)
 			sc3.calleeKey = key
+			sc3.useParams = true
+			sc3.atBlock = g.curBlock
 			t, err := sc3.boolTerm(cl.E)
 			if err != nil {
 				g.BindErrs = append(g.BindErrs, fmt.Sprintf("assume %q: %v", cl.Text, err))
@@ -665,8 +687,8 @@ func (g *Gen) ret(st *State, x *ssa.Return) {
 				if id, ok := call.Fun.(*EIdent); ok && id.Name == "fields" && len(call.Args) == 1 {
 					if tn := ExprString(call.Args[0]); strings.HasPrefix(tn, "map[") {
 						for _, n := range g.uniOrder {
-							if strings.HasPrefix(n, "M:"+tn+":") && st.Heap[n] != g.entry.Heap[n] {
-								goal := g.unchangedOutside(n, st.Heap[n], g.entry.Heap[n], g.entry.Clk, nil, true)
+							if strings.HasPrefix(n, "M:"+tn+":") && st.Heap[n] != nil && st.Heap[n] != g.entry.Heap[n] {
+								goal := g.unchangedOutside(n, st.Heap[n], g.heapGet(g.entry, n, g.universe[n]), g.entry.Clk, nil, true)
 								g.obligeNamed(st, "preserves", g.frameOrd(n), "preserves: "+n+" unchanged", x.Pos(), goal)
 							}
 						}
@@ -678,8 +700,8 @@ func (g *Gen) ret(st *State, x *ssa.Return) {
 						continue
 					}
 					for _, n := range g.uniOrder {
-						if compOfType(n, ty) && st.Heap[n] != g.entry.Heap[n] {
-							goal := g.unchangedOutside(n, st.Heap[n], g.entry.Heap[n], g.entry.Clk, nil, true)
+						if compOfType(n, ty) && st.Heap[n] != nil && st.Heap[n] != g.entry.Heap[n] {
+							goal := g.unchangedOutside(n, st.Heap[n], g.heapGet(g.entry, n, g.universe[n]), g.entry.Clk, nil, true)
 							g.obligeNamed(st, "preserves", g.frameOrd(n), "preserves: "+n+" unchanged", x.Pos(), goal)
 						}
 					}
